@@ -2059,6 +2059,11 @@ func (tc *typechecker) checkCompositeLiteral(node *ast.CompositeLiteral, typ ref
 			}
 			if keyTi.IsConstant() {
 				key := tc.typedValue(keyTi, keyType)
+				if keyType.Kind() == reflect.Interface {
+					// Two keys of an interface type are equal only if they
+					// have the same type: MyInt(1) and 1 are different keys.
+					key = [2]any{keyTi.Type, key}
+				}
 				if _, ok := hasKey[key]; ok {
 					panic(tc.errorf(node, "duplicate key %s in map literal", kv.Key))
 				}
